@@ -15,14 +15,19 @@ WHAT = 'pipeline stages never exceed their concurrency limit'
 VAC = ('Terminated',)
 
 
-def run(ctx):
-    thorough = ctx.tier == 'thorough'
-    exe = pc.build(ctx)
+def _e1(ctx, thorough):
     ctx.check_model(pc.SPEC, 'MCPipeline.tla', 'MC_limit.cfg', WHAT, workers=4, vacuity_exempt=VAC,
                     label='limits 1/2/unlimited x pool 0..2 x inline/queued, clean and throwing')
     if thorough:
         ctx.check_model(pc.SPEC, 'MCPipeline.tla', 'MC_limit_big.cfg', WHAT, workers=4, vacuity_exempt=VAC, timeout=1500,
                         label='3 workers racing for 2 slots; generator limit 2 of 3')
+
+
+def run(ctx):
+    thorough = ctx.tier == 'thorough'
+    exe = pc.build(ctx)
+    if not pc.traces_only():
+        _e1(ctx, thorough)
     pc.cleanup()
     rng = random.Random(ctx.seed + 28)
     fixed = [
